@@ -50,6 +50,13 @@ vbi3_bit_slicer_slice(vbi3_bit_slicer *bs, uint8_t *buffer, unsigned int buffer_
   V_ASSERT(k < st_max_lines, "record_below_max_lines");
   V_ASSERT(k == st_n_hits, "records_dense");
   V_ASSERT(buffer_size == sizeof(ST_OUT[0].data), "buffer_size_is_record_payload_size");
+  { /* the job is one of the ways of this scan line's pattern row (pattern rows are in decode order: field 1 rows, then field 2) */
+    unsigned pi = row, w, found = 0;
+    if (ST_RD.sampling.interlaced) pi = (row & 1) ? (unsigned) ST_RD.sampling.count[0] + (row >> 1) : (row >> 1);
+    for (w = 0; w < _VBI3_RAW_DECODER_MAX_WAYS; w++)
+      if (pi < ST_NROWS) found |= ST_RD.pattern[pi * _VBI3_RAW_DECODER_MAX_WAYS + w] == (int) j + 1;
+    V_ASSERT(found, "job_belongs_to_the_rows_pattern");
+  }
   st_n_calls++;
   if (row < ST_MAXROWS && j < _VBI3_RAW_DECODER_MAX_JOBS && (st_verdict[row][j] & 1)) {
     for (i = 0; i < 4 && i < buffer_size; i++) buffer[i] = st_fill;     /* some payload */
